@@ -1,0 +1,93 @@
+//go:build verif
+
+package flood
+
+// Machine-checked contracts for /verif (govc). Comment-only, compiled only
+// with -tags verif; changes no behaviour.
+
+// ---- C28: with a signing key, a command is acted on / forwarded only after
+// verification of exactly its signable bytes, signature and timestamp ----
+
+//@ func (*Flooder).verifySleepCommand
+//@ prop C28
+//@ after call SignableBytes let sb = $ret
+//@ after call time.Since let age = $ret
+//@ after call crypto.Verify let sigOK = $ret
+//@ at call SignableBytes assert $0 == cmd
+//@ at call crypto.Verify assert $0 == *f.signingPubKey && $1 == sb && $2 == cmd.Signature
+//@ at call time.Since assert cmd.Timestamp < 9223372036854775808 ==> $0 == cmd.Timestamp * 1000000000
+//@ ensures err == nil && f.signingPubKey != nil ==> sigOK && abs(age) <= f.timestampWindow
+
+//@ func (*Flooder).verifyWakeCommand
+//@ prop C28
+//@ after call SignableBytes let sb = $ret
+//@ after call time.Since let age = $ret
+//@ after call crypto.Verify let sigOK = $ret
+//@ at call SignableBytes assert $0 == cmd
+//@ at call crypto.Verify assert $0 == *f.signingPubKey && $1 == sb && $2 == cmd.Signature
+//@ at call time.Since assert cmd.Timestamp < 9223372036854775808 ==> $0 == cmd.Timestamp * 1000000000
+//@ ensures err == nil && f.signingPubKey != nil ==> sigOK && abs(age) <= f.timestampWindow
+
+//@ func (*Flooder).HandleSleepCommand
+//@ prop C28 C29
+//@ modifies *
+//@ after call verifySleepCommand let vErr = $ret
+//@ after call markSleepCmdSeen let firstTime = $ret
+//@ at call verifySleepCommand assert $1 == cmd
+//@ at call markSleepCmdSeen assert vErr == nil && $1 == cmd.OriginAgent && $2 == cmd.CommandID
+//@ at call floodSleepCommand assert vErr == nil && firstTime && $2 == cmd
+//@ ensures result ==> vErr == nil && firstTime
+
+//@ func (*Flooder).HandleWakeCommand
+//@ prop C28 C29
+//@ modifies *
+//@ after call verifyWakeCommand let vErr = $ret
+//@ after call markSleepCmdSeen let firstTime = $ret
+//@ at call verifyWakeCommand assert $1 == cmd
+//@ at call markSleepCmdSeen assert vErr == nil && $1 == cmd.OriginAgent && $2 == cmd.CommandID
+//@ at call floodWakeCommand assert vErr == nil && firstTime && $2 == cmd
+//@ at call storePendingWake assert vErr == nil && firstTime && $1 == cmd
+//@ ensures result ==> vErr == nil && firstTime
+
+//@ func (*Flooder).floodSleepCommand
+//@ prop C28
+//@ modifies *
+//@ at call (*SleepCommand).Encode assert $0.OriginAgent == cmd.OriginAgent && $0.CommandID == cmd.CommandID && $0.Timestamp == cmd.Timestamp && $0.Signature == cmd.Signature
+
+//@ func (*Flooder).floodWakeCommand
+//@ prop C28
+//@ modifies *
+//@ at call (*WakeCommand).Encode assert $0.OriginAgent == cmd.OriginAgent && $0.CommandID == cmd.CommandID && $0.Timestamp == cmd.Timestamp && $0.Signature == cmd.Signature
+
+//@ census[C28] (*Flooder).storePendingWake in (*Flooder).HandleWakeCommand, (*Flooder).FloodWakeCommand
+//@ note FloodWakeCommand is the locally issued path (operator-initiated wake), not a frame handler
+//@ census[C28] (*Flooder).floodSleepCommand in (*Flooder).HandleSleepCommand
+//@ census[C28] (*Flooder).floodWakeCommand in (*Flooder).HandleWakeCommand
+
+// ---- C29: a command is recorded the first time it is accepted, and the record
+// of a command that can still verify is never dropped while a signing key is set ----
+
+//@ guarded Flooder.sleepCmdMu: sleepCmdSeenCache
+
+//@ func (*Flooder).markSleepCmdSeen
+//@ prop C29
+//@ modifies *
+//@ check lockset
+//@ ensures forall k SleepCommandKey: k.OriginAgent == originAgent && k.CommandID == commandID ==> (result <==> !old(has(f.sleepCmdSeenCache, k)))
+//@ ensures forall k SleepCommandKey: k.OriginAgent == originAgent && k.CommandID == commandID ==> has(f.sleepCmdSeenCache, k)
+//@ ensures forall k SleepCommandKey: old(has(f.sleepCmdSeenCache, k)) ==> has(f.sleepCmdSeenCache, k)
+
+//@ func (*Flooder).cleanupSleepCmdCache
+//@ prop C29
+//@ modifies *
+//@ requires held(f.sleepCmdMu)
+//@ check lockset
+//@ loop 0 invariant forall k SleepCommandKey: old(has(f.sleepCmdSeenCache, k)) && now - old(f.sleepCmdSeenCache[k].SeenAt) <= expiry ==> has(f.sleepCmdSeenCache, k)
+//@ loop 0 invariant forall k SleepCommandKey: has(f.sleepCmdSeenCache, k) ==> old(has(f.sleepCmdSeenCache, k)) && f.sleepCmdSeenCache[k] == old(f.sleepCmdSeenCache[k])
+//@ loop 0 invariant f.sleepCmdSeenCache == old(f.sleepCmdSeenCache)
+//@ ensures f.signingPubKey != nil ==> forall k SleepCommandKey: old(has(f.sleepCmdSeenCache, k)) && now - old(f.sleepCmdSeenCache[k].SeenAt) <= expiry ==> has(f.sleepCmdSeenCache, k)
+
+//@ func (*Flooder).cleanup
+//@ prop C29
+//@ modifies *
+//@ at call cleanupSleepCmdCache assert $2 >= 2 * f.timestampWindow && $2 >= f.cfg.SeenCacheTTL
